@@ -159,6 +159,17 @@ def check(ctx):
         return in_key(c)
     ok = bool(coer_calls) and all(only_a_key(c) for c in coer_calls)
     ctx.check(ok, "C14.R4", lm.qualname, coer_calls[0] if coer_calls else lm.node, "LiteralMethod uses a coerced value otherwise than as a key of value_map: a coerced value that is not a member would be accepted", lm, lm.node, detail="self.value_map[... self.coercer(cls, data) ...]")
+    # ... and the key carries the runtime kind of the coerced value itself (the only type check a literal has)
+    for c in coer_calls:
+        p = parents.get(c)
+        vtext = p.targets[0].id if isinstance(p, ast.Assign) and len(p.targets) == 1 and isinstance(p.targets[0], ast.Name) else norm(c)
+        for sub in ast.walk(lm.node):
+            if isinstance(sub, ast.Subscript) and norm(sub.value) == "self.value_map" and any(norm(x) == vtext for x in ast.walk(sub.slice)):
+                k = sub.slice
+                ok = isinstance(k, ast.Tuple) and len(k.elts) == 2 and norm(k.elts[1]) == vtext and norm(k.elts[0]) == f"isinstance({vtext}, bool)"
+                ctx.check(ok, "C14.R4", f"{lm.qualname}:coerced-key", None,
+                          f"`{short(sub, 60)}`: the coerced value is looked up under a kind that is not computed from the value itself: the default coercer returns True unchanged when asked for int (True is an int), a custom coercer may return 1 when asked for bool - the wrong-typed result is then accepted (Literal[1] / an Enum of value 1 accept true under coerce=True)",
+                          lm, sub, detail=f"self.value_map[isinstance({vtext}, bool), {vtext}]")
     om = model.func(f"{DESER_MOD}.OptionalMethod.deserialize")
     coer_calls = [n for n in walk_no_nested(om.node) if isinstance(n, ast.Call) and norm(n.func) == "self.coercer"]
     parents = {c: p for p in ast.walk(om.node) for c in ast.iter_child_nodes(p)}
@@ -232,6 +243,7 @@ def check(ctx):
 
 
 def mutants(mb):
+    mb.add_text("literal-coerced-kind-from-request", "apischema/deserialization/methods.py", "                        coerced = self.coercer(cls, data)\n                        return self.value_map[isinstance(coerced, bool), coerced]\n", "                        return self.value_map[cls is bool, self.coercer(cls, data)]\n", "C14.R4", "coerced-key")
     mb.add_text("literal-retry-aborts-on-coercer-error", "apischema/deserialization/methods.py", "                    except (KeyError, TypeError, ValidationError):\n", "                    except (KeyError, TypeError):\n", "C14.R6", "retry-handler")
     mb.add_text("literal-coercer-guard-flipped", "apischema/deserialization/methods.py", "        except KeyError:\n            if self.coercer is not None:\n", "        except KeyError:\n            if self.coercer is None:\n", "C14.R6", "LiteralMethod")
     mb.add_text("optional-coercer-guard-or", "apischema/deserialization/methods.py", "            if self.coercer is not None and self.coercer(NoneType, data) is None:", "            if self.coercer is None or self.coercer(NoneType, data) is None:", "C14.R6", "OptionalMethod")
